@@ -1,16 +1,19 @@
 /* C13 (and C12 for LPFreadValue): the LP-format reader helpers of src/soplex/spxlpbase_real.hpp.
  * Every LPF* body below is #included verbatim from a slice cut out of the current tree.  The functions keep
- * their REAL signatures; they are given C linkage only so that their CBMC function id contains no comma and
+ * their REAL parameter lists; they are given C linkage only so that their CBMC function id contains no comma and
  * can carry loop contracts (README point 1).  `pos` is a reference to a local of the wrapper; the wrapper
- * exports the alias pointer gpp_pos so that loop invariants can talk about it (README point 6). */
+ * exports the alias pointer gpp_pos so that loop invariants can talk about it (README point 6).
+ * One instance per -DINST_<name>; a function is only compiled into the instances that need it (every loop in the
+ * goto binary must carry a loop contract or a complete-unwinding entry). */
 #include "verif.h"
 #include "constants.h"       /* SOPLEX_LPF_MAX_LINE_LEN, SOPLEX_DEFAULT_INFINITY: extracted from the tree on every run */
 
 typedef double R;
 typedef double Real;
+static const Real infinity = SOPLEX_DEFAULT_INFINITY;
 
-/* ---- dropped by extraction: logging ---------------------------------------------------------------- */
-/* (a C-variadic debug() taking a double trips dfcc's write-set parameter: plain overloads instead) */
+/* ---- dropped by extraction: logging ------------------------------------------------------------------ */
+/* (a C-variadic debug() that is handed a double trips dfcc's write-set parameter: plain overloads instead) */
 struct SPxOut
 {
    static void debug(const void*, const char*) {}
@@ -19,26 +22,33 @@ struct SPxOut
 };
 #define SPX_MSG_WARNING(spxout, x)
 
-/* ---- ghosts shared with contract.c ----------------------------------------------------------------- */
+/* ---- ghosts shared with contract.c ------------------------------------------------------------------- */
 extern "C" {
-   extern char*  gp_line;     /* the line buffer                                  */
-   extern char** gpp_pos;     /* alias of the wrapper local that `pos` refers to  */
-   extern int    g_len;       /* line[g_len] == 0                                 */
-   extern int    g_off;       /* initial offset of pos                            */
-   extern int    g_k;         /* ghost index ("for all k")                        */
-   extern char   v_k;         /* line[g_off + g_k] on entry                       */
-   /* ghost record of what the callees (atof / NameSet) were handed */
-   extern int    g_calls;     /* number of calls of the recording callee          */
-   extern int    g_tl;        /* ghost token length                               */
-   extern char   v_arg_k;     /* arg[g_k]   at the time of the call               */
-   extern char   v_arg_end;   /* arg[g_tl]  at the time of the call               */
-   extern int    g_arg_inrange;
-   extern double v_ret;       /* what the recording callee returned               */
-   extern int    g_num;       /* NameSet::num()                                   */
-   extern int    g_added;     /* NameSet::add / LPColSetBase::add calls           */
+   extern char*  gp_line;     /* the line buffer                                       */
+   extern char** gpp_pos;     /* alias of the wrapper local that `pos` refers to       */
+   extern int    g_len;       /* line[g_len] == 0                                      */
+   extern int    g_off;       /* initial offset of pos                                 */
+   extern int    g_k;         /* ghost index ("for all k"), relative to pos            */
+   extern char   v_k;         /* line[g_off + g_k] on entry                            */
+   /* ghost record of what the callees (atof / NameSet::number / NameSet::add) were handed */
+   extern int    g_calls;     /* number of calls of the recording callee               */
+   extern int    g_tl;        /* ghost token length                                    */
+   extern char   v_arg_k;     /* arg[g_k]  at the time of the call                     */
+   extern char   v_arg_end;   /* arg[g_tl] at the time of the call                     */
+   extern char   v_arg_0;     /* arg[0]    at the time of the call                     */
+   extern const char* gp_arg; /* the argument pointer itself                           */
+   extern double v_ret;       /* what atof returned                                    */
+   extern int    v_nret;      /* what NameSet::number returned                         */
+   extern int    g_num;       /* NameSet::num()                                        */
+   extern int    g_added;     /* NameSet::add calls                                    */
+   extern int    g_add_same;  /* NameSet::add was handed the pointer number() got      */
+   extern int    g_cadded;    /* LPColSetBase::add calls                               */
 }
 
-/* ---- C library models (trusted) -------------------------------------------------------------------- */
+/* is a[i] inside the object a points into?  (the recording stubs must not add out-of-bounds reads of their own) */
+#define INOBJ(a, i) (0 <= (i) && (unsigned long)(i) + __CPROVER_POINTER_OFFSET(a) < __CPROVER_OBJECT_SIZE(a))
+
+/* ---- C library models (trusted) ---------------------------------------------------------------------- */
 extern "C" {
 /* glibc: tolower() is a table lookup defined for -128..255 (the assertion documents that the helpers never leave
  * that domain); "C" locale mapping. */
@@ -49,17 +59,20 @@ int tolower(int c)
 }
 
 #if defined(STRCHR_LINE)
-/* strchr on the line buffer: first occurrence or NULL; scans up to the terminator.  Its loop carries a loop
- * contract (unit.json) saying that the scan stays inside gp_line[0..g_len]. */
+/* strchr on the line buffer: first occurrence or NULL, scanning up to the terminator.  Its loop carries a loop
+ * contract (unit.json) saying that the scan stays inside gp_line[g_off..g_len]. */
 char* strchr(const char* str, int chr)
 {
    const char* p = str;
+
    while(*p != (char)chr)
    {
       if(*p == '\0')
          return 0;
+
       p++;
    }
+
    return (char*)p;
 }
 #elif defined(STRCHR_LIT)
@@ -70,28 +83,35 @@ char* strchr(const char* str, int chr)
    {
       if(str[j] == (char)chr)
          return (char*)str + j;
+
       if(str[j] == '\0')
          return 0;
    }
 }
 #endif
 
-/* is a[i] inside the object a points into?  (the recording stubs must not add out-of-bounds reads of their own) */
-#define INOBJ(a, i) (0 <= (i) && (unsigned long)(i) + __CPROVER_POINTER_OFFSET(a) < __CPROVER_OBJECT_SIZE(a))
+#ifdef INST_readValue
 /* atof: a ghost-recording stub.  It records, at the ghost indices, the bytes it was handed, and returns an
- * unconstrained double (the value is C12's bounded stand-in's business, not this unit's). */
+ * unconstrained double (the numeric value is the business of C12's bounded stand-in, not of this unit). */
 double atof(const char* a)
 {
    g_calls++;
-   if(INOBJ(a, g_k))  v_arg_k = a[g_k];
-   if(INOBJ(a, g_tl)) v_arg_end = a[g_tl]; else g_arg_inrange = 0;
+   gp_arg = a;
+
+   if(INOBJ(a, g_k))
+      v_arg_k = a[g_k];
+
+   if(INOBJ(a, g_tl))
+      v_arg_end = a[g_tl];
+
    v_ret = nondet_double();
    return v_ret;
 }
+#endif
 }
 
-/* ---- the shared character-class helpers (real bodies) ----------------------------------------------- */
-static inline bool LPFisSpace(int c)
+/* ---- the character-class helpers every instance may call (real bodies) ------------------------------- */
+extern "C" bool LPFisSpace(int c)
 {
 #include "LPFisSpace.inc"
 }
@@ -104,6 +124,92 @@ extern "C" bool LPFisSense(const char* s)
 #include "LPFisSense.inc"
 }
 
+/* ---- loop-free predicates ---------------------------------------------------------------------------- */
+#ifdef INST_isValue
+extern "C" int w_isValue(const char* line, int n, int off) { return LPFisValue(line + off); }
+#endif
+
+#ifdef INST_isSense
+extern "C" int w_isSense(const char* line, int n, int off) { return LPFisSense(line + off); }
+#endif
+
+#if defined(INST_isColName)
+extern "C" bool LPFisColName(const char* s)
+{
+#include "LPFisColName.inc"
+}
+extern "C" int w_isColName(const char* line, int n, int off) { return LPFisColName(line + off); }
+#endif
+
+#ifdef INST_isInfinity
+extern "C" bool LPFisInfinity(const char* s)
+{
+#include "LPFisInfinity.inc"
+}
+extern "C" int w_isInfinity(const char* line, int n, int off) { return LPFisInfinity(line + off); }
+#endif
+
+#ifdef INST_isFree
+extern "C" bool LPFisFree(const char* s)
+{
+#include "LPFisFree.inc"
+}
+extern "C" int w_isFree(const char* line, int n, int off) { return LPFisFree(line + off); }
+#endif
+
+/* ---- LPFreadSense ------------------------------------------------------------------------------------ */
+#ifdef INST_readSense
+extern "C" int LPFreadSense(char*& pos)
+{
+#include "LPFreadSense.inc"
+}
+extern "C" int w_readSense(char* line, int n, int off, int* off_out)
+{
+   char* p = line + off;
+   gp_line = line; gpp_pos = &p;
+   int r = LPFreadSense(p);
+   *off_out = (int)(p - line);
+   return r;
+}
+#endif
+
+/* ---- LPFhasKeyword: one instance per keyword literal of the tree (keyword.inc is extracted from the call site) */
+#ifdef INST_hasKeyword
+extern "C" bool LPFhasKeyword(char*& pos, const char* keyword)
+{
+#include "LPFhasKeyword.inc"
+}
+extern "C" int w_hasKeyword(char* line, int n, int off, int* off_out)
+{
+   VIN("n", n); VIN("len", g_len); VIN("off", off); VIN_ARR8("text", line + off, n - off);
+   char* p = line + off;
+   gp_line = line; gpp_pos = &p;
+   bool r = LPFhasKeyword(p,
+#include "keyword.inc"
+                         );
+   *off_out = (int)(p - line);
+   return r;
+}
+#endif
+
+/* ---- LPFreadInfinity: its callee LPFhasKeyword is replaced by its contract (contract.c) ---------------- */
+#ifdef INST_readInfinity
+extern "C" bool LPFhasKeyword(char*& pos, const char* keyword);
+extern "C" R LPFreadInfinity(char*& pos)
+{
+#include "LPFreadInfinity.inc"
+}
+extern "C" double w_readInfinity(char* line, int n, int off, int* off_out)
+{
+   char* p = line + off;
+   gp_line = line; gpp_pos = &p;
+   R r = LPFreadInfinity(p);
+   *off_out = (int)(p - line);
+   return r;
+}
+#endif
+
+/* ---- LPFreadValue ------------------------------------------------------------------------------------ */
 #ifdef INST_readValue
 extern "C" R LPFreadValue(char*& pos, SPxOut* spxout)
 {
@@ -111,11 +217,84 @@ extern "C" R LPFreadValue(char*& pos, SPxOut* spxout)
 }
 extern "C" double w_readValue(char* line, int n, int off, int* off_out)
 {
-   VIN("n", n); VIN("len", g_len); VIN("off", off); VIN_ARR8("tok", line + off, n - off);
+   VIN("n", n); VIN("len", g_len); VIN("off", off); VIN_ARR8("text", line + off, n - off);
    char* p = line + off;
    gp_line = line; gpp_pos = &p;
    R v = LPFreadValue(p, 0);
    *off_out = (int)(p - line);
    return v;
+}
+#endif
+
+/* ---- NameSet / LPColSetBase: ghost-recording stubs (automatic objects, no destructors) ---------------- */
+#if defined(INST_readColName) || defined(INST_hasRowName)
+struct NameSet
+{
+   /* real: index of the name in [0, num()) or -1.  Records what it was handed at the ghost indices. */
+   int number(const char* str) const
+   {
+      g_calls++;
+      gp_arg = str;
+
+      if(INOBJ(str, g_k))
+         v_arg_k = str[g_k];
+
+      if(INOBJ(str, g_tl))
+         v_arg_end = str[g_tl];
+
+      v_nret = nondet_int();
+      __CPROVER_assume(-1 <= v_nret && v_nret < g_num);      /* NameSet::number's range (type invariant of the dependency) */
+      return v_nret;
+   }
+   int num() const { return g_num; }
+   void add(const char* str)
+   {
+      g_added++;
+      g_add_same = (str == gp_arg);
+
+      if(INOBJ(str, 0))
+         v_arg_0 = str[0];
+   }
+};
+template <class T> struct LPColBase { int dummy; };
+template <class T> struct LPColSetBase
+{
+   int dummy;
+   void add(const LPColBase<T>& pcol) { g_cadded++; }
+};
+#endif
+
+#ifdef INST_readColName
+extern "C" int LPFreadColName(char*& pos, NameSet* colnames, LPColSetBase<R>& colset,
+                              const LPColBase<R>* emptycol, SPxOut* spxout)
+{
+#include "LPFreadColName.inc"
+}
+extern "C" int w_readColName(char* line, int n, int off, int have_empty, int* off_out)
+{
+   VIN("n", n); VIN("len", g_len); VIN("off", off); VIN("have_empty", have_empty); VIN_ARR8("text", line + off, n - off);
+   char* p = line + off;
+   gp_line = line; gpp_pos = &p;
+   NameSet names; LPColSetBase<R> colset; LPColBase<R> emptycol;
+   int r = LPFreadColName(p, &names, colset, have_empty ? &emptycol : 0, 0);
+   *off_out = (int)(p - line);
+   return r;
+}
+#endif
+
+#ifdef INST_hasRowName
+extern "C" bool LPFhasRowName(char*& pos, NameSet* rownames)
+{
+#include "LPFhasRowName.inc"
+}
+extern "C" int w_hasRowName(char* line, int n, int off, int have_names, int* off_out)
+{
+   VIN("n", n); VIN("len", g_len); VIN("off", off); VIN("have_names", have_names); VIN_ARR8("text", line + off, n - off);
+   char* p = line + off;
+   gp_line = line; gpp_pos = &p;
+   NameSet names;
+   bool r = LPFhasRowName(p, have_names ? &names : 0);
+   *off_out = (int)(p - line);
+   return r;
 }
 #endif
